@@ -118,6 +118,11 @@ ParamSpec paramSpecOf(const Op &op) {
     size_t count;
     if (nd == 0) { count = static_cast<size_t>(delta < 0 ? -delta : delta); if (count > 300) count = 300; s.consistent = true; }
     else if (delta == -999999) { count = 0; s.consistent = (prod == 0); }      // empty data with an explicit shape
+    else if (delta <= -888881 && delta >= -888889) {                             // as many values as the product of the first k dimensions only
+        size_t kdim = static_cast<size_t>(-888880 - delta); if (kdim > s.dims.size()) kdim = s.dims.size();
+        size_t pp = 1; for (size_t i2 = 0; i2 < kdim; ++i2) pp *= s.dims[i2];
+        count = pp > 3000 ? 3000 : pp; s.consistent = (count == prod);
+    }
     else {
         const size_t cap = s.type == 2 ? 600 : 30000;      // up to 60 KB of int data: records beyond 32767 bytes are legal
         size_t capped = prod > cap ? cap : prod;     // never build huge arrays; a capped array is inconsistent on purpose
@@ -229,7 +234,13 @@ static ezc3d::DataNS::Frame buildFrame(const Shape &s, long long dev, uint64_t v
 namespace { struct NullBuf : std::streambuf { int overflow(int c) override { return c; } }; }
 
 Interp::Interp(const std::string &scratchDir) : dir(scratchDir) { slots.resize(4); obj.reset(new ezc3d::c3d()); trace = getenv("VERIF_TRACE") != nullptr; }
-Interp::Interp(const RunCtx &ctx) : Interp(ctx.scratch) { openFindings = ctx.openFindings; }
+Interp::Interp(const RunCtx &ctx, const std::string &prop) : Interp(ctx.scratch) {
+    for (auto &id : ctx.openFindings) {
+        auto it = ctx.notExcludedFor.find(id);
+        if (!prop.empty() && it != ctx.notExcludedFor.end() && it->second.count(prop)) continue;
+        openFindings.insert(id);
+    }
+}
 Interp::~Interp() {}
 ParamSpec Interp::specOf(const Op &op) const { ParamSpec s = paramSpecOf(op); if (namesUpper) { s.group = upper(s.group); s.name = upper(s.name); } return s; }
 std::string Interp::groupOf(long long g) const { std::string n = groupNameOf(g); return namesUpper ? upper(n) : n; }
@@ -396,6 +407,11 @@ Outcome Interp::exec(const Op &op) {
             case 14: {  // int matrix 255 x v
                 ezc3d::ParametersNS::GroupNS::Parameter p("MATRIX"); std::vector<int> m(static_cast<size_t>(255 * v)); for (size_t i2 = 0; i2 < m.size(); ++i2) m[i2] = static_cast<int>(i2 % 30000);
                 p.set(m, {255, static_cast<size_t>(v)}); obj->parameter("LIMITS", p); out.note = "matrix255x" + std::to_string(v); break; }
+            case 15: {  // int matrix 255 x 128 (65280 bytes of data) with a description of v characters: the RECORD passes 65535 bytes from v = 249
+                ezc3d::ParametersNS::GroupNS::Parameter p("BIGDESC", std::string(static_cast<size_t>(v), 'e')); std::vector<int> m(255 * 128, 3);
+                p.set(m, {255, 128}); obj->parameter("LIMITS", p);
+                ezc3d::ParametersNS::GroupNS::Parameter after("AFTER"); after.set(std::vector<int>() = {11, 12}); obj->parameter("LIMITS", after);
+                out.note = "record255x128+desc" + std::to_string(v); break; }
             case 11: obj->parameter("LIMITS2", mk("G", "")); { /* group description cannot be set through c3d: covered via Group in a loaded file */ } out.note = "noop"; break;
             default: out.skipped = true; out.mutating = false; break;
             }
